@@ -308,13 +308,17 @@ class Backends:
     def __init__(self, kind: str):
         self.kind = kind
         self.S = _q()['S']
-        self.dir = tempfile.mkdtemp(prefix='c10-') if kind != 'dict' else None
-        self.dict_backend = self.S.DictBackend() if kind == 'dict' else None
+        self.dir = tempfile.mkdtemp(prefix='c10-') if kind in ('fs', 'zip') else None
+        self.dict_backend = self.S.DictBackend() if kind in ('dict', 'caching') else None
 
     def open(self):
         """a backend object over the same storage (a new object for the persistent ones)"""
         if self.kind == 'dict':
             return self.dict_backend
+        if self.kind == 'caching':
+            with warnings.catch_warnings():
+                warnings.simplefilter('ignore')
+                return self.S.CachingBackend(self.dict_backend)      # a new cache over the same storage
         if self.kind == 'fs':
             return self.S.FilesystemBackend(self.dir)
         return self.S.ZipFileBackend(os.path.join(self.dir, 'store.zip'))
@@ -517,7 +521,7 @@ class Case:
             warnings.simplefilter('ignore')
             channels = opts.get('channels') or rng.choice([['A'], ['A', 'B'], ['A', 'B', 'C']])
             self.roots = self.gen.forest(opts.get('roots') or rng.randrange(1, 4), opts.get('depth', 3), channels)
-        self.finish(opts.get('backend') or rng.choice(['dict', 'fs', 'zip']))
+        self.finish(opts.get('backend') or rng.choice(['dict', 'fs', 'zip', 'fs', 'zip', 'caching']))
 
     def finish(self, backend: str):
         rng = self.rng
@@ -544,7 +548,8 @@ class Case:
 class Built(Case):
     """a hand-built case (corpus witnesses, targeted enumeration)"""
 
-    def __init__(self, roots, backend='dict', assign=None, order=None):
+    def __init__(self, roots, backend='dict', assign=None, order=None, origin=None):
+        self.origin = origin
         self.seed = 0
         self.opts = {}
         self.rng = random.Random(0)
@@ -627,6 +632,9 @@ def check_case(ctx: core.Ctx, case: Case, label: str, lean_lines: list, pending:
 def replay_dict(case: Case, extra: Optional[dict] = None) -> dict:
     d = {'kind': 'tree', 'case_seed': case.seed, 'opts': case.opts, 'backend': case.backend,
          'order': [p.identifier for p in case.order], 'roots': [repr(r)[:2000] for r in case.roots]}
+    origin = getattr(case, 'origin', None)
+    if origin:
+        d.update(origin)          # hand-built cases are re-built by name / index, not from a seed
     if extra:
         d.update(extra)
     return d
@@ -707,6 +715,8 @@ def judge_case(ctx: core.Ctx, rec: dict, answers: list) -> List[str]:
             eq = outcome(lambda: bool(l == n) and bool(n == l))
             if eq != ('ok', True):
                 problems.append(('equal', 'loaded %r does not compare equal to the original (%r)' % (n.identifier, eq), n))
+            if l.identifier != n.identifier:
+                problems.append(('identifier', 'the object loaded for %r has identifier %r' % (n.identifier, l.identifier), n))
             so, sl = static_observables(n), static_observables(l)
             for k in so:
                 if so[k] != sl[k]:
@@ -752,7 +762,7 @@ def judge_case(ctx: core.Ctx, rec: dict, answers: list) -> List[str]:
             a = answers[1 + k]
             res, built = obs['built'][rid]
             if res[0] == 'ok' and a[0] == 'ok':
-                m_tree = core.sx(_relabel(a[1]))
+                m_tree = core.sx(a[1])
                 i_tree = tree_sx(res[1], tok, {})
                 m_built = sorted(tok.back.get(t, t) for t in a[2][1:])
                 if m_tree != i_tree:
@@ -775,14 +785,11 @@ def judge_case(ctx: core.Ctx, rec: dict, answers: list) -> List[str]:
     problems = kept
     if problems:
         clause, text = problems[0][0], problems[0][1]
-        if False:
-            pass
-        else:
-            small = shrink(case, clause)
-            ctx.violation('%s [%s] (%d finding(s) on this case; first shown)' % (text, clause, len(problems)),
-                          replay_dict(case, {'clause': clause, 'all': [p[1][:300] for p in problems[:8]],
-                                             'minimal': small}))
-            found = [p[0] for p in problems]
+        small = shrink(case, clause)
+        ctx.violation('%s [%s] (%d finding(s) on this case; first shown)' % (text, clause, len(problems)),
+                      replay_dict(case, {'clause': clause, 'all': [p[1][:300] for p in problems[:8]],
+                                         'minimal': small}))
+        found = [p[0] for p in problems]
     elif drifts:
         for name, impl, mdl in drifts:
             ctx.drift(name, case.canonical[:500], str(impl)[:300], str(mdl)[:300])
@@ -792,10 +799,6 @@ def judge_case(ctx: core.Ctx, rec: dict, answers: list) -> List[str]:
 def _short(o):
     s = repr(o)
     return s if len(s) < 160 else s[:160] + '…'
-
-
-def _relabel(t):
-    return t
 
 
 # ------------------------------------------------------------------------------------------------
@@ -819,6 +822,8 @@ def quick_problems(roots, backend='dict', assign=None) -> List[str]:
             l = ps2[r.identifier]
             if not (l == r):
                 out.append('equal')
+            if l.identifier != r.identifier:
+                out.append('identifier')
             if static_observables(l) != static_observables(r):
                 out.append('static')
             if not duration_equal(l, r):
@@ -970,6 +975,8 @@ def small_scope(ctx) -> List[Case]:
         named = [x for x in nodes if x.identifier]
         order = [named, list(reversed(named)), [roots[0]], [named[1], roots[0], named[0]]][perm]
         cases.append(Built(roots, backend=['dict', 'fs', 'zip', 'dict'][perm], assign=assign, order=order))
+    for k, c in enumerate(cases):
+        c.origin = {'kind': 'enum', 'index': k}
     return cases
 
 
@@ -1185,12 +1192,12 @@ def run(ctx: core.Ctx):
     run_cases(ctx, cases, 'enum')
     opts = {'depth': 3}
     if ctx.quick:
-        run_cases(ctx, random_cases(ctx, 260, 'random', opts), 'random')
-        run_cases(ctx, random_cases(ctx, 40, 'abstract', dict(opts, allow_abstract=True)), 'abstract')
+        run_cases(ctx, random_cases(ctx, 230, 'random', opts), 'random')
+        run_cases(ctx, random_cases(ctx, 30, 'abstract', dict(opts, allow_abstract=True)), 'abstract')
     else:
         import multiprocessing
         jobs = []
-        for k in range(32):
+        for k in range(24):
             jobs.append((ctx.pid, ctx.tier, ctx.seed, 'random-%d' % k, 500, dict(opts, depth=3 + k % 2)))
         for k in range(4):
             jobs.append((ctx.pid, ctx.tier, ctx.seed, 'abstract-%d' % k, 250, dict(opts, allow_abstract=True)))
@@ -1207,6 +1214,12 @@ def run(ctx: core.Ctx):
                 for s in res['samples']:
                     if len(ctx.samples) < 12:
                         ctx.samples.append(s)
+    if ctx.drifts and not ctx.violations:
+        # failing-input search: model and implementation differ somewhere but no case violated the property so far
+        # (every case above, incl. the targeted enumeration, was already judged on the implementation's output):
+        # judge a further batch of fresh random forests
+        ctx.count('search:extra-batch')
+        run_cases(ctx, random_cases(ctx, ctx.n(150, 2000), 'search', opts), 'search')
     ctx.extra['structural_agreement'] = {k: v for k, v in ctx.counters.items() if k.startswith('structural:')}
 
 
@@ -1222,11 +1235,17 @@ def replay(ctx: core.Ctx, rec: dict, from_corpus: bool = False) -> bool:
         with warnings.catch_warnings():
             warnings.simplefilter('ignore')
             roots, assign = witness(rec['name'])
-        for backend in rec.get('backends', ['dict', 'fs', 'zip']):
+        for backend in rec.get('backends', ['dict', 'fs', 'zip', 'caching']):
             with warnings.catch_warnings():
                 warnings.simplefilter('ignore')
                 roots, assign = witness(rec['name'])
-            run_cases(ctx, [Built(roots, backend=backend, assign=assign)], 'corpus')
+            run_cases(ctx, [Built(roots, backend=backend, assign=assign,
+                                  origin={'kind': 'witness', 'name': rec['name'], 'backends': [backend]})], 'corpus')
+    elif kind == 'enum':
+        with warnings.catch_warnings():
+            warnings.simplefilter('ignore')
+            cases = small_scope(ctx)
+        run_cases(ctx, [cases[rec['index']]], 'replay')
     elif kind == 'malformed':
         malformed(ctx)
     else:
